@@ -15,7 +15,7 @@ def stall_case(rng, maxq, npk, gop_len, stall_from, resume_at):
         if not (stall_from <= i < resume_at):
             sched += [[G.CONS, 1]] * rng.choice([2, 2, 4])
     sched += [[G.CONS, 0], [G.CONS, 1]] * 4
-    return [G.FIXED, 2, maxq, True, pkts, [0, 0], sched, [0, 0]]
+    return [G.FIXED, 2, maxq, True, pkts, [0, 0], sched, [0, 0], False]
 
 def run(ck):
     if not ck.prepare():
